@@ -236,6 +236,25 @@ def definition_cases(draw, tier):
     return {"A": A, "pat": pat}
 
 
+@st.composite
+def long_definition_cases(draw, tier):
+    """One long dimension (crossing the blocking sizes) against <= 3, or both moderately long."""
+    Lg, sh = draw(gen.long_dim(cap=257 if tier == "quick" else 620)), draw(st.integers(1, 3))
+    if draw(st.integers(0, 3)) == 0:
+        Lg, sh = draw(st.sampled_from([33, 65])), draw(st.sampled_from([33, 40]))
+    m, n = (Lg, sh) if draw(st.booleans()) else (sh, Lg)
+    A, pat = draw(gen.long_qarray(m, n))
+    e = draw(st.sampled_from([0, 0, -30, 30]))
+    return {"A": np.ascontiguousarray(A * 10.0 ** e), "pat": pat}
+
+
+@st.composite
+def long_spectral_cases(draw, tier):
+    c = draw(long_definition_cases(tier))
+    A = c["A"]
+    return {"A": A, "kind": "pattern", "pat": c["pat"], "rank_ub": min(A.shape[:2])}
+
+
 def _coo_with_duplicates(P):
     """COO matrix equal to P whose stored triplets repeat positions: each entry a is stored as a/2 + a/2 (exact)."""
     r, c = np.nonzero(P)
@@ -717,6 +736,10 @@ PROPERTY = Property(
     clauses=[
         Clause("definitions", check_definitions, strategy=definition_cases, budget={"quick": 1200, "thorough": 16000}),
         Clause("spectral", check_spectral, strategy=spectral_cases, budget={"quick": 900, "thorough": 12000}),
+        Clause("definitions_long_dimension", check_definitions, strategy=long_definition_cases,
+               budget={"quick": 32, "thorough": 320}, shrink=False),
+        Clause("spectral_long_dimension", check_spectral, strategy=long_spectral_cases,
+               budget={"quick": 24, "thorough": 240}, shrink=False),
         Clause("homogeneity", check_homogeneity, strategy=homogeneity_cases, budget={"quick": 800, "thorough": 10000}),
         Clause("triangle", check_triangle, strategy=triangle_cases, budget={"quick": 700, "thorough": 10000}),
         Clause("submultiplicative", check_submult, strategy=submult_cases, budget={"quick": 700, "thorough": 10000}),
